@@ -223,6 +223,15 @@ def feature_sets(W, H, mode):
                     out.append(((ws, c), ('#', t)))
                     out.append(((ws, c), (fs, c), ('#', t)))
         return out
+    if mode == 'W2':
+        # several wall symbols in ONE cell (corner cells): every pair and every triple of directions
+        out = []
+        for c in sorted(cs):
+            syms = sorted(WALL_SYMS)
+            for k in (2, 3):
+                for combo in itertools.combinations(syms, k):
+                    out.append(tuple((ws, c) for ws in combo))
+        return out
     if mode == 'F2any':
         singles = [f[0] for f in obst + walls + fences]
         return [(f, g) for f, g in itertools.combinations(singles, 2)]
@@ -243,7 +252,8 @@ FAMILIES = {
         (3, 1, 'all', 'none', PH), (3, 1, 'all', 'F1', PH), (3, 1, 'few', 'F1', P3), (3, 1, 'pairs', 'F2same', P3),
         (1, 3, 'all', 'none', PH), (1, 3, 'all', 'F1', P3),
         (2, 2, 'all', 'none', PH), (2, 2, 'all', 'F1', PH), (2, 2, 'few', 'F1', P3), (2, 2, 'few', 'F2same', P3),
-        (3, 2, 'all', 'none', PH), (3, 2, 'few3', 'F1', PH),
+        (2, 2, 'few3', 'W2', PH), (3, 1, 'few3', 'W2', PH), (1, 3, 'few3', 'W2', PH),
+        (3, 2, 'all', 'none', PH), (3, 2, 'few3', 'F1', PH), (3, 2, 'none', 'W2', PH),
         (2, 3, 'few', 'none', PH), (2, 3, 'few3', 'F1', PH),
         (3, 3, 'few', 'none', PH), (3, 3, 'mix3', 'F1', PH),
     ],
@@ -253,7 +263,7 @@ FAMILIES = {
         (3, 1, 'all', 'none', PH), (3, 1, 'all', 'F1', P3), (3, 1, 'all', 'F2same', P3), (3, 1, 'all', 'F2any', PH),
         (1, 3, 'all', 'none', PH), (1, 3, 'all', 'F1', P3), (1, 3, 'all', 'F2same', P3), (1, 3, 'all', 'F2any', PH),
         (2, 2, 'all', 'none', PH), (2, 2, 'all', 'F1', P3), (2, 2, 'all', 'F2same', P3), (2, 2, 'all', 'F2any', PH),
-        (2, 2, 'few3', 'F3mixed', PH),
+        (2, 2, 'few3', 'F3mixed', PH), (2, 2, 'all', 'W2', PH), (3, 2, 'few3', 'W2', PH), (3, 3, 'few3', 'W2', PH),
         (3, 2, 'all', 'none', PH), (3, 2, 'all', 'F1', P3), (3, 2, 'few3', 'F2same', P3),
         (2, 3, 'all', 'none', PH), (2, 3, 'pairs', 'F1', PH), (2, 3, 'few3', 'F2same', PH),
         (3, 3, 'all', 'none', PH), (3, 3, 'few', 'F1', P3), (3, 3, 'mix3', 'F2same', PH),
